@@ -23,6 +23,8 @@ func priceTemplates(date string) []jr.Dir {
 		jr.P(date, "AAPL", "100", "USD"),
 		jr.P(date, "AAPL", "33.33333333", "USD"),
 		jr.P(date, "EUR", "1.08", "CHF"),
+		// a connected commodity quoted in one that is not connected yet (AAPL via USD)
+		jr.P(date, "USD", "0.01", "AAPL"),
 	}
 }
 
@@ -137,6 +139,9 @@ func c01Cfgs(full bool) []ref.BalCfg {
 		for _, f := range froms {
 			for _, t := range tos {
 				for iv := ref.Once; iv <= ref.Yearly; iv++ {
+					if !full && (iv == ref.Weekly || iv == ref.Yearly) {
+						continue
+					}
 					for _, last := range lasts {
 						if iv == ref.Once && last != 0 {
 							continue
